@@ -105,6 +105,7 @@ ALL_CONFIGS = ["BioConsert", "BioConsert[Copeland]", "BioConsert[KwikSort,Borda]
 
 # ------------------------------------------------------------------ shims specific to the sweep
 _INSTALLED = {}
+MAX_PIVOT_DRAWS = 32        # n <= 6 elements need at most n draws per run; a path holds a handful of runs
 
 
 def install():
@@ -119,6 +120,10 @@ def install():
     def sym_choice(seq):
         seq = list(seq)
         ctx = fork.CUR if fork.CUR is not None else standins.ConcreteCtx()
+        if fork.CUR is not None and sum(1 for c in ctx.choices if c[0] == "pivot") > MAX_PIVOT_DRAWS:
+            # a sort that draws a pivot on a group that does not shrink recurses for ever under an adversarial chooser: the
+            # path is abandoned, the other paths are still explored, and the run is inconclusive unless a violation is replayed
+            raise fork.Abandon(f"more than {MAX_PIVOT_DRAWS} pivot draws on one path (group not shrinking?)")
         return seq[ctx.choose(len(seq), "pivot")]
     KR.choice = sym_choice
     sh["corankco.algorithms.kwiksort.kwiksortrandom.choice"] = "arbitrary element (forked / pinned in replays)"
@@ -835,13 +840,20 @@ def history_items(run, configs, checks, k, flags=(True,)):
             if len(d[0]) == 2:
                 d = tuple(r + (-1,) for r in d[:1]) + ((0, 1, 2),)
             names = NAMINGS[3][i % 3]
-            if i % 2 == 0:
+            if i % 3 == 2:
+                # flag transition: exactly one element is ranked in some rankings only; removing it makes the dataset complete
+                e = rnd.randrange(3)
+                full = rnd.choice([r for r in rnd.choice(base) if -1 not in r] or [(0, 1, 2)])
+                part = tuple(-1 if x == e else v for x, v in enumerate(rnd.choice([(0, 1, 2), (1, 0, 0), (0, 0, 1), (2, 1, 0)])))
+                part = tuple(spec.levels_of(spec.buckets_of(part), 3))
+                lvs, hist = ((full, part) if i % 2 else (part, full)), ("remove", e)
+            elif i % 2 == 0:
                 lvs, hist = d + ((-1, -1, -1),), ("empty",)
             else:
                 lvs, hist = d, ("remove", rnd.randrange(3))
             for fl in flags:
                 items.append((cfg, lvs, names, fl, checks, None, hist))
-    run.bounds["histories (aggregate, edit the dataset in place, aggregate again)"] = {"per configuration": k, "edits": ["remove_empty_rankings", "remove_elements({e})"]}
+    run.bounds["histories (aggregate, edit the dataset in place, aggregate again)"] = {"per configuration": k, "edits": ["remove_empty_rankings", "remove_elements({e})", "remove_elements({e}) turning an incomplete dataset into a complete one"]}
     return items
 
 
